@@ -3,13 +3,18 @@
    real web.Application (cfg.table, same structure as UrlDispatch entries) followed by
    independent observations of the frozen router:
 
-     ev = "Query"     raw request path (code points, any spelling) + Host + method, and what
+     ev = "Query"     raw request path (code points, any spelling) + Host header (code points)
+                      + method, and what
                       `await app.router.resolve(request)` answered (obs)
      ev = "UrlFor"    entry idx, parameter values vals, the path url_for() produced (raw) and
                       what resolving that path answered (obs)
      ev = "Redirect"  normalize_path_middleware(append_slash=ap, remove_slash=rm,
                       merge_slashes=mg) in front of the table, raw target (with query),
                       observed status and Location
+
+   Observations of one execution are made on the SAME application object, in an order the
+   driver varies, some of them twice: the router's answers must not depend on what was
+   asked before.
 
    Every observation is compared with the reference (UrlDispatch!Resolve on Canon(raw)).
    Observations are independent, so a failing one does not end the trace: hard failures
@@ -43,10 +48,13 @@ Mismatch(obs, ref) ==
       [] obs.t = "match" -> "MatchedButNoRouteServes"
       [] OTHER -> "ResolveMismatch"
 
-(* Judge one resolution.  Result [hard, dev, disc, asT, asF]. *)
-JudgeResolve(tb, host, path, method, obs) ==
+(* the domains of the table (cfg.domains = [[name, code points], ...]) the Host header matches *)
+HostsOf(doms, hostcp, p80) == {doms[k][1] : k \in {n \in DOMAIN doms : HostMatches(doms[n][2], hostcp, p80)}}
+
+(* Judge one resolution for a given set of matched domains.  Result [hard, dev, disc, asT, asF]. *)
+JudgeHosts(tb, host, path, method, obs) ==
     LET rT == ResolveOpt(Ideal(TRUE), tb, host, path, method)
-        rF == IF \E i \in DOMAIN tb : tb[i].domain = host     \* else both orders agree trivially
+        rF == IF \E i \in DOMAIN tb : tb[i].domain \in host   \* else both orders agree trivially
               THEN ResolveOpt(Ideal(FALSE), tb, host, path, method) ELSE rT
         disc == ~SameResult(rT, rF)
         okT == SameResult(obs, rT)
@@ -66,17 +74,27 @@ JudgeResolve(tb, host, path, method, obs) ==
 Clean == [hard |-> "", dev |-> "", disc |-> FALSE, asT |-> FALSE, asF |-> FALSE]
 Hard(c) == [Clean EXCEPT !.hard = c]
 
-JudgeQuery(tb, e) == JudgeResolve(tb, e.host, Canon(e.raw), e.method, ObsRes(e.obs))
+(* hostcp: the Host header.  An explicit ":80" against a port-less rule may match or not
+   (both permitted): the observation is accepted if it agrees with either reading.        *)
+JudgeResolve(tb, doms, hostcp, path, method, obs) ==
+    LET hs == HostsOf(doms, hostcp, FALSE)
+        hl == HostsOf(doms, hostcp, TRUE)
+        j1 == JudgeHosts(tb, hs, path, method, obs)
+    IN IF hl = hs \/ (j1.hard = "" /\ j1.dev = "") THEN j1
+       ELSE LET j2 == JudgeHosts(tb, hl, path, method, obs) IN
+            IF j2.hard = "" /\ j2.dev = "" THEN j2 ELSE j1
+
+JudgeQuery(tb, doms, e) == JudgeResolve(tb, doms, e.host, Canon(e.raw), e.method, ObsRes(e.obs))
 
 (* url_for(vals) must spell a path the template matches with exactly vals (UrlForEncoding),
    and resolving it must give the values back (UrlForInverse) whenever the rule says the
    entry itself serves that path.                                                        *)
-JudgeUrlFor(tb, e) ==
+JudgeUrlFor(tb, doms, e) ==
     LET path == Canon(e.raw)
         m == MatchEntry(tb[e.idx], path)
         obs == ObsRes(e.obs)
-        j == JudgeResolve(tb, e.host, path, e.method, obs)
-        ref == Resolve(tb, e.host, path, e.method)
+        j == JudgeResolve(tb, doms, e.host, path, e.method, obs)
+        ref == ResolveOpt(Ideal(DomainFirst), tb, HostsOf(doms, e.host, FALSE), path, e.method)
     IN IF e.raw = <<>> \/ e.raw[1] # 47 THEN Hard("UrlForEncoding")
        ELSE IF \E k \in DOMAIN e.raw : e.raw[k] <= 32 \/ e.raw[k] >= 127   \* not a request-target
             THEN (IF NeedsQuoteSegs(Flat(tb[e.idx].app))
@@ -92,23 +110,25 @@ JudgeUrlFor(tb, e) ==
 (* normalising redirects: never off-site, only to a path that resolves, only when the
    request itself did not resolve, query string kept.  Only RedirectOffSite is the listed
    property; the other clauses are sanity conditions on the same observations.           *)
-JudgeRedirect(tb, e) ==
-    LET orig == Resolve(tb, e.host, Canon(PathOnly(e.raw)), e.method)
+JudgeRedirect(tb, doms, e) ==
+    LET hs == HostsOf(doms, e.host, FALSE)
+        Res(p) == ResolveOpt(Ideal(DomainFirst), tb, hs, p, e.method)
+        orig == Res(Canon(PathOnly(e.raw)))
         lp == PathOnly(e.loc)
     IN IF e.status >= 500 THEN Hard("MiddlewareRaised")
        ELSE IF ~e.hasloc THEN
             (IF orig.t = "match" /\ e.status # 200 THEN Hard("ResolvableButNotServed") ELSE Clean)
        ELSE IF ~OnSite(e.loc) THEN Hard("RedirectOffSite")
        ELSE IF orig.t = "match" THEN Hard("RedirectOfResolvablePath")
-       ELSE IF Resolve(tb, e.host, Canon(lp), e.method).t # "match" THEN Hard("RedirectTargetUnresolved")
+       ELSE IF Res(Canon(lp)).t # "match" THEN Hard("RedirectTargetUnresolved")
        ELSE IF DecodeSeg(Drop(e.loc, Len(lp))) # DecodeSeg(Drop(e.raw, Len(PathOnly(e.raw))))
             THEN Hard("RedirectQueryLost")     \* same query up to percent-spelling (yarl re-spells it)
        ELSE Clean
 
-Judge(tb, e) ==
-    CASE e.ev = "Query" -> JudgeQuery(tb, e)
-      [] e.ev = "UrlFor" -> JudgeUrlFor(tb, e)
-      [] e.ev = "Redirect" -> JudgeRedirect(tb, e)
+Judge(tb, doms, e) ==
+    CASE e.ev = "Query" -> JudgeQuery(tb, doms, e)
+      [] e.ev = "UrlFor" -> JudgeUrlFor(tb, doms, e)
+      [] e.ev = "Redirect" -> JudgeRedirect(tb, doms, e)
       [] OTHER -> Hard("UnknownEvent")
 
 Note(list, pos, name) == IF name # "" /\ Len(list) < 4 THEN Append(list, <<pos, name>>) ELSE list
@@ -125,7 +145,7 @@ TInit ==
 
 TNext ==
     /\ l < NEvents(tid)
-    /\ LET j == Judge(T, Events(tid)[l + 1])
+    /\ LET j == Judge(T, Cfg(tid).domains, Events(tid)[l + 1])
            f2 == Note(fails, l + 1, j.hard)
            d2 == Note(devs, l + 1, j.dev)
            s2 == <<dstat[1] + (IF j.disc THEN 1 ELSE 0),
